@@ -33,9 +33,9 @@ setp('C02',
  nuc=["HalfConnection::emit_data_frames (resend/pending queue discipline) — pinned, trusted frame contract only"], technique=T)
 
 setp('C03',
- "Total correctness (no panic, no overflow, every index/slice/shift/unwrap in bounds, every debug_assert!, every loop with a `decreases`) of every function under contract on the paths bytes -> Frame::read -> client/server handle_frame -> HalfConnection handlers -> frame ack queue / packet receiver / assembly window / fragment buffer, ack frame -> frame queue (acknowledge_group, window advance, log culling, reorder buffer, loss-interval integer code) -> packet sender acknowledge; sync frame -> resynchronize; send/step/flush glue that Verus accepts (emit_frames, emit_sync_frame, both frame emitters, builders); client and server state machines. All handler contracts are quantified over ALL field values of CRC-valid frames; the only value ranges assumed are the ones the decoder's postcondition establishes. One proof gap is reported on every run (PROOF-GAP line, counted as undischarged): the ack-byte accumulator bound in the client's socket loop (usage assumption < 2^62 bytes acknowledged per step()). Float code is outside Verus (see not_under_contract).",
+ "Total correctness (no panic, no overflow, every index/slice/shift/unwrap in bounds, every debug_assert!, every loop with a `decreases`) of every function under contract on the paths bytes -> Frame::read -> client/server handle_frame -> HalfConnection handlers -> frame ack queue / packet receiver / assembly window / fragment buffer, ack frame -> frame queue (acknowledge_group, window advance, log culling, reorder buffer, loss-interval integer code) -> packet sender acknowledge; sync frame -> resynchronize; send/step/flush glue that Verus accepts (emit_frames, emit_sync_frame, both frame emitters, builders); client and server state machines. All handler contracts are quantified over ALL field values of CRC-valid frames; the only value ranges assumed are the ones the decoder's postcondition establishes. One proof gap is reported on every run (PROOF-GAP line, counted as undischarged): the ack-byte accumulator bound in the client's socket loop (usage assumption < 2^62 bytes acknowledged per step()). The TFRC float path (handle_feedback, nofeedback_expired, step, update_rtt/rto, RecvRateSet) is decided by the Kani unit kani:floats (panic/overflow freedom for all feedback values in the stated domain; RecvRateSet bounded).",
  "Configuration preconditions (reported, not checked): now_ms <= 2^62, active_timeout_ms <= 2^62, max_receive_alloc + 1448 + 94896128 <= usize::MAX, max_packet_size <= MAX_PACKET_SIZE, process runs < 2^62 ms. Socket loops (`while let Ok(..) = socket.recv(..)`) carry no termination measure (the socket drives them).",
- nd=["termination of the two socket receive loops (bounded by the OS queue, not by the code)", "the float path (TFRC rate computation, credit refill): Kani unit in progress; until it is merged these functions are NOT claimed"],
+ nd=["termination of the two socket receive loops (bounded by the OS queue, not by the code)", "termination of the float bisection eval_tcp_throughput_inv (argued, D5)", "LossIntervalQueue::compute_loss_rate and FeedbackGen::get_feedback (f64, not under contract)"],
  nuc=["HalfConnection::emit_ack_frames, emit_data_frames, step (closures capturing &mut) — pinned, trusted", "send_rate.rs (all f64), recv_rate_set.rs, LossIntervalQueue::compute_loss_rate/reset, FeedbackGen::get_feedback, fill_flush_alloc — f64: forced external_body", "FrameLog::push, FrameLog::drain, FeedbackGen::notify_ack/notify_advancement (closure / generic RangeBounds) — trusted with the preconditions that make their unwraps safe, proved at every call site", "Client::connect, Server::bind*, Server::step (impl Iterator), now_ms (Instant)"],
  technique=T, thorough=['native:C03'])
 
@@ -78,9 +78,9 @@ setp('C12',
  nuc=["HalfConnection::emit_data_frames, HalfConnection::step (flush_id increment) — pinned"], technique=T)
 
 setp('C13',
- "Per-call emission contracts proved unbounded by Verus on the real emitters and the sync path (a frame is started only with credit >= 0, grows only by the code's rule, every frame handed to the sink has length L <= 1472 and debits the credit by exactly L; one call site per emitter, any new one fails `unexpected-emission-site`), the sink ledger (bytes into the sink == credit debited), plus the pure ledger lemma lemma_c13_interval (induction over ANY sequence of refills and emissions respecting those contracts: bytes emitted <= max(credit0,0) + bytes credited + 1472, credit never below -1472). Ceiling mapping tx_bandwidth_limit == min(local max_send_rate, peer max_receive_rate) proved at both handshake sites (C07 units). The refill side (credit <= floor(rate*dt + carry), cap round(rate*rtt), rate <= ceiling) is float code: Kani unit in progress, until merged it is an assumption (D15 and D19 were found and fixed there).",
+ "Per-call emission contracts proved unbounded by Verus on the real emitters and the sync path (a frame is started only with credit >= 0, grows only by the code's rule, every frame handed to the sink has length L <= 1472 and debits the credit by exactly L; one call site per emitter, any new one fails `unexpected-emission-site`), the sink ledger (bytes into the sink == credit debited), plus the pure ledger lemma lemma_c13_interval (induction over ANY sequence of refills and emissions respecting those contracts: bytes emitted <= max(credit0,0) + bytes credited + 1472, credit never below -1472). Ceiling mapping tx_bandwidth_limit == min(local max_send_rate, peer max_receive_rate) proved at both handshake sites (C07 units). The refill side is float code and is decided by Kani on the real fill_flush_alloc (credit added == floor(rate*dt + carry) with the carry conserved bitwise, balance <= round(rate*rtt), carry in [0,1), D15) and on the real rate controller (X <= max_send_rate after every feedback and every no-feedback expiry, D19).",
  "The closures in emit_ack_frames / emit_data_frames debit HalfConnection.flush_alloc and the emitter's private copy by the same frame length: by inspection (pinned bodies). Literal bound of the property is met up to 2 bytes of rounding slack (floor with carry <= rate*dt + 1; cap rounded to nearest).",
- nd=["refill bound and rate <= ceiling (f64; Kani unit pending)", "glue between HalfConnection.flush_alloc and the emitters' copies (closures)"],
+ nd=["glue between HalfConnection.flush_alloc and the emitters' copies (closures)", "Instant - Instant saturates (std behaviour, assumed)", "the telescoping sum of the per-step credits (sum floor(x_i + carry) <= sum x_i + 1) is an argument over reals; f64 rounding of rate*dt is not bounded by the proof"],
  nuc=["HalfConnection::emit_ack_frames, emit_data_frames, step, fill_flush_alloc"], technique=T, thorough=['native:C13'])
 
 setp('C15',
@@ -110,9 +110,20 @@ setp('C20',
  "The size read back through Rc<RefCell<PendingPacket>> equals the size stored: cell_const (immutability of PendingPacket's data after construction; its only mutator acknowledge_fragment is proved to preserve it; syntactic guard audit:pending_packet).",
  nd=[], technique=T, units=['verus', 'audit:pending_packet'])
 
-# not yet claimed
-for pid, why in (('C14', 'TFRC rate rules are f64 code; the Kani contract unit for send_rate.rs is still being completed (groups do not yet finish within budget); not claimed until it is merged'),
-                 ('C19', 'after the D11 repair the crate contains no unsafe block; the Kani life-cycle harness for FragmentBuffer (allocator contract, leak check) is part of the Kani unit still being completed; not claimed until it is merged')):
-    P[pid]['claimed'] = False; P[pid]['reason'] = why
+KT = 'contract-based verification with Kani function contracts (proof_for_contract / stub_verified) on the real float code, woven into a scratch copy of the crate on every run'
+setp('C14',
+ "Kani/CBMC, bit-precise f64, on the real send_rate.rs woven with contracts (strictly modular: leaves proved alone, callers with stub_verified leaves): ms_to_s, s_to_ms, update_rtt (first sample => rtt == sample, else 0.9*old + 0.1*sample bitwise, rtt_ms == round(1000*rtt)), update_rto (max(4R, 2s/X)), initial rates (4380/R, 736/R), eval_tcp_throughput (no panic/NaN; p == 0 => saturates); handle_feedback for ALL feedback values in the stated domain: X <= max_send_rate, throughput-equation phase X <= max(X_Bps(new rtt, p), s/64) and X >= s/64, slow start at most doubles or sets W_init/R and never doubles within one RTT, first loss enters the equation phase at X_target with the loss history initialised once; nofeedback_expired keeps or halves (floor s/64, D14), never exceeds the ceiling and never increases (D19), no assertion failure on repeated expiries (D18); step() without feedback before the deadline leaves X unchanged. These are loop-free full-domain proofs (complete). RecvRateSet contracts are validated by bounded harnesses only (sets of <= 3 entries, real bodies: never empty after an update (D3), result == max) and assumed beyond; the bisection result in [0,1] is bounded (<= 6 evaluations).",
+ "Trusted: Kani 0.68 / CBMC 6.11 (+ cvc5 1.0.3 and kissat back ends), CBMC's sqrt model (non-deterministic within ~1 ulp: bitwise equality of eval_tcp_throughput with a transcription of RFC 5348 3.1 is NOT provable; only 4 concrete points in the thorough tier). Domain preconditions: now_ms <= 2^62, feedback.rtt_ms <= 2^61, loss_rate in [0,1] (NaN/out-of-range loss rates come only from the crate's own loss-interval code), state invariants I1-I6 listed in kani/floats/callers.rs. WEAVE-K: harness modules appended to the real files, contract attributes inserted in front of the real functions; nothing else changes.",
+ nd=["termination of eval_tcp_throughput_inv for all floats (argued: the interval strictly shrinks or the function returns, D5)", "eval_tcp_throughput == RFC formula bitwise (sqrt model)", "RecvRateSet beyond 3 entries (assumed contracts, validated bounded)", "LossIntervalQueue::compute_loss_rate (weights/averages: not under contract)"],
+ nuc=["LossIntervalQueue float functions, FeedbackGen::get_feedback"], technique=KT, units=['kani:floats'], thorough=['native:C14'])
+P['C14']['engine'] = 'kani'
+
+setp('C19',
+ "BOUNDED, not proof: after the D11 repair the crate has no unsafe block (the two `unsafe impl Send/Sync` have no executable content). Kani/CBMC harnesses on the real FragmentBuffer / AssemblyWindow code with CBMC's memory-leak check and Kani's allocator model (dealloc size must equal alloc size): new -> write -> finalize -> drop with a symbolic last-fragment length, finalize of a 2-fragment buffer with symbolic total_size, drop without finalize, (assembly-window partial/complete life cycles when merged); bounds: <= 2 fragments, <= 2 slots. Plus a syntactic audit on every run (no unsafe block / forget / leak / ManuallyDrop / raw-pointer round trip; Rc strong edges form a DAG): if the audit no longer holds and no harness fails, the check is UNDECIDED.",
+ "Trusted: Kani's allocator model and CBMC's leak check. Whole-endpoint teardown accounting (client/server drop) is not decided: it is an allocator-level dynamic question; ownership is by Rc/Weak with no cycles (audit).",
+ nd=["byte-accurate teardown accounting of a whole client/server", "life cycles with more than 2 fragments"], technique='bounded model checking with Kani/CBMC (allocator contract + leak check) on the real code, plus syntactic audit', units=['kani:heap', 'audit:heap'])
+P['C19']['level'] = 'bounded'; P['C19']['engine'] = 'kani'
+P['C13']['units'] = ['verus', 'kani:refill', 'kani:floats@C13']
+P['C03']['units'] = ['verus', 'kani:floats@C03']
 json.dump(c, open(os.path.join(VERIF, 'props.json'), 'w'), indent=1)
 print('ok')
